@@ -146,6 +146,12 @@ class Check:
         os.makedirs(os.path.join(ROOT, 'evidence'), exist_ok=True)
         with open(os.path.join(ROOT, 'evidence', f'{self.pid}.json'), 'w') as f:
             json.dump(ev, f, indent=1, default=str)
+        if ndis < nob and not self.violations and not self.inconclusive:
+            # safety net: an obligation that is not discharged and not explained is never a pass
+            left = [o['name'] for o in self.obligations if o['status'] not in ('unsat', 'holds')]
+            covered = bool(self.known_hits)
+            if not covered:
+                self.inconcl(f'{nob - ndis} obligation(s) neither discharged nor explained: {left[:3]}')
         st = 'VIOLATED' if self.violations else ('INCONCLUSIVE' if self.inconclusive else 'HOLDS')
         print(f'[{self.pid}] {st}: {ndis}/{nob} obligations discharged, {self.paths} paths, '
               f'{self.queries} solver queries, {self.solver_s:.1f}s solver, {wall:.1f}s wall', flush=True)
